@@ -111,6 +111,7 @@ def ledger_case(cid, rng, with_failures):
     attempts and live-block counts of every call are compared with the model's"""
     L = ["ledger"]
     objs, vas = [], []
+    plain = set()
     nh = [0]
     def h():
         nh[0] += 1; return nh[0]
@@ -124,9 +125,11 @@ def ledger_case(cid, rng, with_failures):
         elif k < 0.45:
             o = h(); L.append("ocopy %d %d" % (o, rng.choice(objs))); objs.append(o)
         elif k < 0.65:
-            v = h(); L.append("va %d -2 %d" % (v, rng.choice(objs))); vas.append(v)
-        elif k < 0.8 and vas:
-            o = h(); L.append("vaget %d %d" % (o, rng.choice(vas))); objs.append(o)
+            v = h(); enc = rng.choice([-2, -2, -4])          # plain, or bit-packed (both are in the ledger model)
+            L.append("va %d %d %d" % (v, enc, rng.choice(objs))); vas.append(v)
+            if enc == -2: plain.add(v)
+        elif k < 0.8 and [x for x in vas if x in plain]:
+            o = h(); L.append("vaget %d %d" % (o, rng.choice([x for x in vas if x in plain]))); objs.append(o)
         elif k < 0.9 and len(objs) > 1:
             o = objs.pop(rng.randrange(len(objs))); L.append("odel %d" % o)
         elif vas:
